@@ -74,6 +74,17 @@ func (ex *Exec) callValue(st *State, fr *Frame, fv Val, sig *types.Signature, ar
 	}
 	switch f := fv.(type) {
 	case *ssa.Builtin:
+		// program-point assertions also apply to calls of builtins ("at call append@1: assert ...")
+		if fr.contract != nil && in != nil {
+			for i, cl := range fr.contract.Asserts["call "+site] {
+				if cl.Kind != "assert" {
+					continue
+				}
+				g := ex.loopEnv(st, fr).Bool(cl.E)
+				ex.oblige(st, funcKey(fr.fn), fmt.Sprintf("at(%s):%s", site, labelOr(cl, i)), clauseTags(cl, fr.contract), g, ex.pos(in.Pos()), cl.Src)
+				st.assume(g)
+			}
+		}
 		res := ex.builtin(st, fr, f, args, in)
 		ex.bind(fr, retTo, res)
 		adv()
@@ -254,18 +265,6 @@ func (ex *Exec) applyContract(st *State, fr *Frame, ct *Contract, fn *ssa.Functi
 			}
 		}
 	}
-	for i, r := range ct.Requires {
-		g := ev.Bool(r.E)
-		tags := r.Tags
-		if len(tags) == 0 {
-			tags = ex.safetyTags(fr)
-			for _, t := range ct.Tags {
-				tags = appendUniq(tags, t)
-			}
-		}
-		ex.oblige(st, fnKey, fmt.Sprintf("pre(%s):%s", short, labelOr(r, i)), tags, g, where, r.Src)
-		st.assume(g)
-	}
 	// program-point assertions of the caller's contract: "at call <site>: assert ..."
 	if fr.contract != nil {
 		for i, cl := range fr.contract.Asserts["call "+site] {
@@ -322,9 +321,25 @@ func (ex *Exec) applyContract(st *State, fr *Frame, ct *Contract, fn *ssa.Functi
 			} else {
 				g = lev.Bool(cl.E)
 			}
-			ex.oblige(st, fnKey, fmt.Sprintf("at(%s):%s", short, labelOr(cl, i)), clauseTags(cl, fr.contract), g, where, cl.Src)
+			kindName := "at"
+			if cl.Kind == "hint" {
+				kindName = "hint" // proof aids are named apart: they may vanish after a harmless edit and are not frozen
+			}
+			ex.oblige(st, fnKey, fmt.Sprintf("%s(%s):%s", kindName, short, labelOr(cl, i)), clauseTags(cl, fr.contract), g, where, cl.Src)
 			st.assume(g) // proved above; from here on it is a lemma
 		}
+	}
+	for i, r := range ct.Requires {
+		g := ev.Bool(r.E)
+		tags := r.Tags
+		if len(tags) == 0 {
+			tags = ex.safetyTags(fr)
+			for _, t := range ct.Tags {
+				tags = appendUniq(tags, t)
+			}
+		}
+		ex.oblige(st, fnKey, fmt.Sprintf("pre(%s):%s", short, labelOr(r, i)), tags, g, where, r.Src)
+		st.assume(g)
 	}
 	// frame
 	if !ct.Pure {
